@@ -274,6 +274,11 @@ func c07Run(p c07Plan, r *vf.Rand) ([]c07Rec, bool) {
 
 	arrive := make([]atomic.Int32, maxOps)
 	need := make([]int32, maxOps)
+	gate := make([]chan struct{}, maxOps)
+
+	for i := range gate {
+		gate[i] = make(chan struct{})
+	}
 
 	for _, ops := range threads {
 		for i := range ops {
@@ -298,12 +303,10 @@ func c07Run(p c07Plan, r *vf.Rand) ([]c07Rec, bool) {
 
 			for i, op := range ops {
 				if rounds {
-					arrive[i].Add(1)
-
-					for spin := 0; arrive[i].Load() < need[i] && spin < 200000; spin++ {
-						if spin%64 == 63 {
-							runtime.Gosched()
-						}
+					if arrive[i].Add(1) == need[i] {
+						close(gate[i])
+					} else {
+						<-gate[i]
 					}
 				} else if yield[i] {
 					runtime.Gosched()
